@@ -133,6 +133,7 @@ func (r *Runner) stepLine(o Op, d *Dump) {
 		return
 	}
 	cfg := r.Sim.Cfg
+	cfg0 := cfg
 	p := o.Pts[0]
 	u := PointUUID(p.Idx)
 	var id uint64
@@ -149,15 +150,21 @@ func (r *Runner) stepLine(o Op, d *Dump) {
 			return
 		}
 		id = pid
-		if p.VSet {
-			hasVec = true
-		} else if p.VDel {
-			if !prev.HasField[pid] {
-				return
-			}
-		} else {
+		if !cfg0.TouchesVector(p) {
+			// the top-level value holding the vector is not part of the update: the index is handed the
+			// stored vector again (a re-insert of an unchanged point); not compared line by line
 			return
 		}
+		// what reaches the index is decided by the documents before and after the merge (the schema
+		// path may be nested: the update replaces the whole top-level object)
+		was, is := prev.HasField[pid], d.HasField[pid]
+		if !was && !is {
+			return
+		}
+		if is && !p.VSet {
+			return
+		}
+		hasVec = is
 	case "del":
 		pid, ok := prev.UUIDNode[u]
 		if !ok || !prev.HasField[pid] {
@@ -266,7 +273,7 @@ func (r *Runner) filterQuery(f string) (*models.Query, error) {
 		ps := strings.Split(f, ":")
 		lo, _ := strconv.ParseInt(ps[1], 10, 64)
 		hi, _ := strconv.ParseInt(ps[2], 10, 64)
-		return &models.Query{Property: GProp, Integer: &models.SearchIntegerOptions{Value: lo, Operator: models.OperatorInRange, EndValue: hi}}, nil
+		return &models.Query{Property: r.Sim.Cfg.GProp(), Integer: &models.SearchIntegerOptions{Value: lo, Operator: models.OperatorInRange, EndValue: hi}}, nil
 	case strings.HasPrefix(f, "id:"):
 		var us []string
 		for _, s := range strings.Split(f[3:], ",") {
@@ -307,7 +314,7 @@ func (r *Runner) Search(o Op) {
 		}
 		sort.Slice(filter, func(i, j int) bool { return filter[i] < filter[j] })
 	}
-	res, serr := r.Sim.Sh.SearchPoints(models.SearchRequest{Query: models.Query{Property: Prop, VectorVamana: &models.SearchVectorVamanaOptions{
+	res, serr := r.Sim.Sh.SearchPoints(models.SearchRequest{Query: models.Query{Property: r.Sim.Cfg.VProp(), VectorVamana: &models.SearchVectorVamanaOptions{
 		Vector: q.Vec, Operator: models.OperatorNear, SearchSize: q.SS, Limit: q.Limit, Filter: fq, Weight: q.Weight}}})
 	var hits []hit
 	impl := ""
@@ -337,6 +344,13 @@ func (r *Runner) Search(o Op) {
 		ids = nil // the entry vector does not exist on disk yet
 	}
 	dq, err := r.Sim.QueryDists(q.Vec, ids)
+	if err != nil {
+		r.fail("dist-error", err.Error())
+		return
+	}
+	// ... and to the vector each live point's document carries right now (the property speaks about
+	// "the point's stored vector": the index must have followed every change of the document)
+	docDq, err := r.Sim.DocDists(q.Vec, d)
 	if err != nil {
 		r.fail("dist-error", err.Error())
 		return
@@ -378,10 +392,10 @@ func (r *Runner) Search(o Op) {
 	if r.Verbose {
 		fmt.Println("  answer:", impl)
 	}
-	r.judgeSearch(o, d, filter, fq != nil, inFilter, hits, serr, dq, w)
+	r.judgeSearch(o, d, filter, fq != nil, inFilter, hits, serr, dq, docDq, w)
 }
 
-func (r *Runner) judgeSearch(o Op, d *Dump, filter []uint64, hasFilter bool, inFilter map[uint64]bool, hits []hit, serr error, dq map[uint64]float32, w float32) {
+func (r *Runner) judgeSearch(o Op, d *Dump, filter []uint64, hasFilter bool, inFilter map[uint64]bool, hits []hit, serr error, dq, docDq map[uint64]float32, w float32) {
 	q := o.Q
 	cfg := r.Sim.Cfg
 	bad := func(kind, what string) {
@@ -427,6 +441,9 @@ func (r *Runner) judgeSearch(o Op, d *Dump, filter []uint64, hasFilter bool, inF
 		}
 		if x, ok := dq[h.id]; ok && canon(x) != canon(h.dist) {
 			bad("distance", fmt.Sprintf("node %d reported %08x, index distance %08x", h.id, canon(h.dist), canon(x)))
+		}
+		if x, ok := docDq[h.id]; ok && live[h.id] && x == x && canon(x) != canon(h.dist) {
+			bad("distance-stale-vector", fmt.Sprintf("node %d reported %08x, but the index's distance to the vector its document stores (%s) is %08x", h.id, canon(h.dist), vecStr(d.DocVec[h.id]), canon(x)))
 		}
 		if canon(h.hybrid) != canon(-(w * h.dist)) {
 			bad("hybrid", fmt.Sprintf("node %d hybrid %08x, expected %08x", h.id, canon(h.hybrid), canon(-(w*h.dist))))
@@ -505,11 +522,39 @@ func fixedScenario(k int, c *Config) [][]Op {
 			{Op{Kind: "upd", Pts: []PC{{Idx: 1, VSet: true, V: v(5, 5)}, {Idx: 1, VSet: true, V: v(0, 1)}}}, q},
 			{Op{Kind: "upd", Pts: []PC{{Idx: 2, VDel: true}, {Idx: 2, VSet: true, V: v(1, 1)}, {Idx: 3, VDel: true}, {Idx: 3, VDel: true}}}, q},
 			{Op{Kind: "upd", Pts: []PC{{Idx: 3, VSet: true, V: v(1, 2)}, {Idx: 3, VSet: true, V: v(2, 1)}, {Idx: 3, VDel: true}, {Idx: 3, VSet: true, V: v(3, 3)}}}, q}}
+	case 3, 4, 5:
+		// index schemas over NESTED property paths: no update ever carries the schema key itself. The
+		// vector is moved by replacing its parent object, dropped by deleting the top-level key, by
+		// replacing the parent with a sibling only / with an empty object / with a nil leaf, by updating
+		// the filter property that lives under the same top-level key; it is added to a point that had
+		// none; an update of an unrelated top-level key leaves it alone. One change per batch and
+		// several per batch, each followed by a search near the moved / dropped vectors.
+		c.VPath, c.GPath = "n.v", "n.g"
+		if k == 4 {
+			c.VPath, c.GPath = "a.b.c.v", "g"
+		}
+		if k == 5 {
+			c.VPath, c.GPath = "n.m.v", "n.g"
+			c.Cache = 0
+		}
+		ins.Pts = append(ins.Pts, PC{Idx: 4, GSet: true, G: 4, Sib: true}, PC{Idx: 5, VSet: true, V: v(5, 0), Tag: true})
+		far := Op{Kind: "qry", Q: &Qry{Vec: v(9, 9), Limit: 6, SS: 10, Filter: "-"}}
+		fq := Op{Kind: "qry", Q: &Qry{Vec: v(0, 0), Limit: 3, SS: 10, Filter: "g:0:4"}}
+		return [][]Op{{ins, q},
+			{Op{Kind: "upd", Pts: []PC{{Idx: 0, VSet: true, V: v(9, 9)}}}, far, q},
+			{Op{Kind: "upd", Pts: []PC{{Idx: 1, VDel: true}}}, q, fq},
+			{Op{Kind: "upd", Pts: []PC{{Idx: 2, Sib: true}}}, q, fq},
+			{Op{Kind: "upd", Pts: []PC{{Idx: 4, VSet: true, V: v(2, 2), Sib: true}}}, q},
+			{Op{Kind: "upd", Pts: []PC{{Idx: 5, Tag: true}}}, q},
+			{Op{Kind: "upd", Pts: []PC{{Idx: 3, GSet: true, G: 1}}}, q, fq},
+			{Op{Kind: "upd", Pts: []PC{{Idx: 0, VObj: true}, {Idx: 4, VNil: true}, {Idx: 1, VSet: true, V: v(1, 1)}, {Idx: 2, VSet: true, V: v(2, 1), GSet: true, G: 2}}}, far, q, fq},
+			{Op{Kind: "upd", Pts: []PC{{Idx: 1, VSet: true, V: v(8, 8)}, {Idx: 1, Tag: true}, {Idx: 2, VSet: true, V: v(7, 7)}, {Idx: 2, VObj: true}}}, far, q},
+		}
 	}
 	return nil
 }
 
-const fixedScenarios = 3
+const fixedScenarios = 6
 
 // RunScenario: one history in this process. Returns false when the history had to stop early.
 func RunScenario(mode string, seed uint64, k int, nOps int, dir string, verbose bool) {
